@@ -127,6 +127,14 @@ def evaluate(lang, code, cwd, datadir, stored):
 
 def readcode(case, d):
     """case: {dtype, shape, seed}"""
+    home = os.path.dirname(os.path.abspath(__file__))
+    try:
+        return _readcode(case, d)
+    finally:
+        os.chdir(home)          # never stay inside a case directory that is about to be removed
+
+
+def _readcode(case, d):
     import random
     rng = random.Random(case['seed'])
     sub = os.path.join(d, 'sub')
@@ -137,6 +145,11 @@ def readcode(case, d):
     dt = np.dtype(case['dtype'])
     stored = distinct_values(dt, n, rng).astype(dt).reshape(shape)
     a = darr.asarray(path, stored, accessmode='r+')
+    if case['seed'] % 3 == 0:
+        # a handle opened through a RELATIVE path (abspath=True must still give the absolute file)
+        del a
+        os.chdir(d)
+        a = darr.Array(os.path.join('sub', 'arr.darr'), accessmode='r+')
     nt, bo = dtype_info(a.dtype)
     out = dict(numtype=nt, byteorder=bo, shape=list(a.shape), absdir=os.path.realpath(path),
                languages=list(a.readcodelanguages), all_languages=sorted(readcodefunc.keys()))
